@@ -17,3 +17,7 @@ def check(ctx, env):
     K.r10_4_constants(ctx, prog)
     K.r4_2_validate_attribute(ctx, prog, rule="R10.5")
     K.r4_7_input_text(ctx, prog, rule="R10.6")        # the CRC input ends at the first FINGERPRINT
+    # the agent checks the first FINGERPRINT against the bytes before it: that is the whole message only because the
+    # decoder it uses (no context) drops whatever follows FINGERPRINT - the filter gate of MessageDecoder::decode
+    from . import c09
+    c09.r92(ctx, prog, rule="R10.7")
